@@ -23,7 +23,7 @@ def check(chk, sc, out, deviation):
     payload = {"kind": "kalman", "sc": _plain(sc), "src": list(out["src"]), "deviation": deviation}
     tag = "kalman:%s%s" % (sc["id"], ":dev" if deviation else "")
     desc = "model %s data %s shock variances %s%s measurement variance %s deviation=%s" % (sc["id"], _plain(sc["data"]), _plain(sc["sd"]),
-        (" plus %s in periods 1..%d supplied as std data (stds_from_data=True)" % (_plain(sc["dsd"]), TK)) if has_extra(sc) else "", _plain(sc["sdw"]), deviation)
+        (" plus %s (transition) and %s (measurement) in periods 1..%d supplied as std data (stds_from_data=True)" % (_plain(sc["dsd"]), _plain(sc["dsw"]), TK)) if has_extra(sc) else "", _plain(sc["sdw"]), deviation)
     try:
         m, res, info, steady = run_filter(sc, out, deviation=deviation)
     except Exception as ex:
@@ -247,7 +247,7 @@ def run(chk):
     chk.add_tlc(rc, "KalmanMC/clauses")
     nc = 0
     for st in _tv.parse_dump(dumpc, want=lambda b: "done = TRUE" in b):
-        if len(st["sc"]["ant"]) == 0:
+        if len(st["sc"]["ant"]) == 0 and len(st["sc"].get("wmean", ())) == 0 and not len(st["out"].get("logv", ())):
             check_recursion_clauses(chk, st["sc"], st["out"])
             nc += 1
     _os.remove(dumpc)
